@@ -348,6 +348,13 @@ def per_item_parts(fn: ast.AST, iter_src: str):
     return v, parts
 
 
+def alternatives(e: ast.AST) -> list[ast.AST]:
+    "the values a conditional expression can take: `A if c else (B if d else C)` -> [A, B, C]; anything else -> [e]"
+    if isinstance(e, ast.IfExp):
+        return alternatives(e.body) + alternatives(e.orelse)
+    return [e]
+
+
 def CT(src: str, strip: bool = False) -> str:
     "canonical text of an expected expression (the index holds idiom-canonical trees: expected texts are canonicalised the same way)"
     t = ast.unparse(canon(ast.parse(src, mode="eval").body))
